@@ -41,3 +41,13 @@ def register(reg):
         "Trusted: oracle closed forms; the reference interval is sound by construction and self-checked (witness membership). "
         "Blind spots: point accuracy <= 5e-4 L at grazing results (K10); results whose final simplex is affinely degenerate (K11).",
         "DESIGN.md section 4 C01")
+
+    reg("C02",
+        "runtime monitor of the five boolean tests against constructed witnesses (separating plane of width >= 1e-3 L / common point at certified depth >= 1e-3 L); exceptions inside the band are recorded",
+        "10 000 (quick) / 400 000 (thorough) ordered pairs over all 100 type pairs: every boolean narrow-phase test the types "
+        "allow (jolt, libccd, MPR, Nesterov, Nesterov-primitives) and gjk_distance==0 is executed and compared with a truth "
+        "that is known by construction (half of the gap cases within a factor 3 of the band edge); inside the band only "
+        "'returns a bool, does not raise' is judged.",
+        "Trusted: inscribed-ball depths and support-plane gaps from the oracle closed forms; the reference solver's "
+        "separating slab (sound lower bound) for lattice/parallel/coplanar scenes.",
+        "DESIGN.md section 4 C02")
